@@ -134,14 +134,23 @@ pub enum Focus {
 }
 
 pub fn gen(rng: &mut Rng, focus: Focus) -> ClientScn {
-    let n_calls = rng.range(1, 8) as usize;
+    // a burst: dozens of calls queued before the dispatch first runs, with room for all of them
+    // (one poll of the dispatch then has dozens of things to do)
+    let burst = focus == Focus::General && rng.chance(30);
+    let n_calls = if burst { rng.range(33, 70) as usize } else { rng.range(1, 8) as usize };
     let handles = rng.range(1, 3) as usize;
     let small = [1usize, 2, 3];
-    let max_in_flight = if rng.chance(600) { *rng.pick(&small) } else { 1000 };
-    let pending_buf = if rng.chance(600) { *rng.pick(&small) } else { 100 };
-    let cap = if rng.chance(650) { *rng.pick(&small) } else { 0 };
+    let max_in_flight = if burst {
+        *rng.pick(&[1000usize, 1000, 40, 16])
+    } else if rng.chance(600) {
+        *rng.pick(&small)
+    } else {
+        1000
+    };
+    let pending_buf = if !burst && rng.chance(600) { *rng.pick(&small) } else { 100 };
+    let cap = if !burst && rng.chance(650) { *rng.pick(&small) } else { 0 };
     let coupled = focus != Focus::Independent;
-    let concurrent = rng.chance(700);
+    let concurrent = burst || rng.chance(700);
     let mut calls = Vec::new();
     for _ in 0..n_calls {
         let dl = match focus {
@@ -555,7 +564,14 @@ fn mk_response(id: u64, body: u64, err: bool) -> Response<u64> {
         message: if err {
             // the detail is peer-chosen text: mostly short, sometimes long, multi-byte or empty
             Err(ServerError::new(
-                std::io::ErrorKind::Other,
+                // any error kind is the peer's to choose, including ones that read like a
+                // local condition (a timeout, a broken connection)
+                match body % 5 {
+                    1 => std::io::ErrorKind::TimedOut,
+                    2 => std::io::ErrorKind::ConnectionReset,
+                    3 => std::io::ErrorKind::WouldBlock,
+                    _ => std::io::ErrorKind::Other,
+                },
                 match body % 11 {
                     3 => format!("e{body}{}", "\u{20ac}".repeat(400)),
                     5 => format!("e{body}{}", "x".repeat(3000)),
@@ -1071,7 +1087,7 @@ pub fn check(scn: &ClientScn, log: &[Ev], horizon_reached: bool, sim: &Sim) -> V
                         }
                     }
                     (Op::Next, Some(Item::Resp { id, ok, err })) if *res == Res::Ok => {
-                        nexts.push((e.seq, e.t, *id, *ok, err.as_ref().map(|x| x.1.clone())));
+                        nexts.push((e.seq, e.t, *id, *ok, err.as_ref().map(|x| format!("{}|{}", x.0, x.1))));
                     }
                     _ => {}
                 }
@@ -1134,9 +1150,10 @@ pub fn check(scn: &ClientScn, log: &[Ev], horizon_reached: bool, sim: &Sim) -> V
                         v.push(viol("C01", "foreign-or-invented-reply", &[], format!("call {i} (id {:?}) returned Ok({b}) but no such reply for its id was read before", c.id)));
                     }
                 }
-                Outcome::Server(_, d) => {
+                Outcome::Server(k, d) => {
+                    let kd = format!("{k}|{d}");
                     let ok = c.id.is_some()
-                        && nexts.iter().any(|x| Some(x.2) == c.id && x.4.as_deref() == Some(d.as_str()) && x.0 < *rseq);
+                        && nexts.iter().any(|x| Some(x.2) == c.id && x.4.as_deref() == Some(kd.as_str()) && x.0 < *rseq);
                     if !ok {
                         v.push(viol("C01", "foreign-or-invented-reply", &["err"], format!("call {i} (id {:?}) returned server error {d} but no such reply for its id was read before", c.id)));
                     }
@@ -1161,7 +1178,7 @@ pub fn check(scn: &ClientScn, log: &[Ev], horizon_reached: bool, sim: &Sim) -> V
                 if fr.1 <= c.deadline - 2 && !abandoned_before && !failed_before && fr.0 < *rseq {
                     let matches = match outcome {
                         Outcome::Ok(b) => fr.3 == Some(*b),
-                        Outcome::Server(_, d) => fr.4.as_deref() == Some(d.as_str()),
+                        Outcome::Server(k, d) => fr.4.as_deref() == Some(format!("{k}|{d}").as_str()),
                         _ => false,
                     };
                     if !matches {
